@@ -219,6 +219,93 @@ def parse_text(text):
     return guarded(go)
 
 
+# ---- the real builtins on a populated store (no model; oracle = direct evaluation) -------------
+
+
+def make_store():
+    """a fresh in-memory datastore with two buckets of events inside [T0, T1]"""
+    from aw_core.models import Event
+    from aw_datastore import Datastore
+    from aw_datastore.storages import MemoryStorage
+
+    ds = Datastore(MemoryStorage, testing=True)
+    ds.create_bucket("win", "currentwindow", "c", "host1")
+    ds.create_bucket("afk", "afkstatus", "c", "host1")
+    apps = ["a0", "a1", "a0", "a2", "a1", "a0"]
+    for i, app in enumerate(apps):
+        ds["win"].insert(Event(timestamp=T0 + timedelta(minutes=10 * i), duration=timedelta(minutes=7),
+                               data={"app": app, "title": f"t{i % 2} - x", "url": f"http://h{i % 2}.org/p"}))
+    for i, st in enumerate(["not-afk", "afk", "not-afk"]):
+        ds["afk"].insert(Event(timestamp=T0 + timedelta(minutes=20 * i), duration=timedelta(minutes=15),
+                               data={"status": st}))
+    return ds
+
+
+def canon_real(v):
+    from aw_core.models import Event
+
+    if isinstance(v, Event):
+        import json
+
+        from .common import dt_to_us, td_to_us
+
+        return ["event", v.id, dt_to_us(v.timestamp), td_to_us(v.duration),
+                json.dumps(v.data, sort_keys=True, default=str)]
+    if isinstance(v, (list, tuple)):
+        return ["l", [canon_real(x) for x in v]]
+    if isinstance(v, dict):
+        return ["d", [[k, canon_real(x)] for k, x in v.items()]]
+    if isinstance(v, (bool, int, str)) or v is None:
+        return ["v", v]
+    return ["o", type(v).__name__, str(v)]
+
+
+def run_text_real(text):
+    """aw_query.query2.query with the real builtin bodies on a fresh populated store"""
+    import aw_query.query2 as q2
+
+    install_stubs()
+    Mode.real = True
+    try:
+        return guarded(lambda: canon_real(q2.query("n", text, T0, T1, make_store())))
+    finally:
+        Mode.real = False
+
+
+def ref_eval_real(prog):
+    """direct evaluation of the abstract syntax: the builtin bodies (the undecorated functions of
+    aw_query.functions) applied to the values of the arguments, datastore / namespace passed to
+    the ones that declare them"""
+    install_stubs()
+    reg = registry()
+    ds = make_store()
+    ns = {"True": True, "False": False, "true": True, "false": False}
+    for k, v in ENV:
+        ns[k] = v
+
+    def ev(e):
+        k = e[0]
+        if k in ("i", "s"):
+            return e[1]
+        if k == "v":
+            return ns[e[1]]
+        if k == "l":
+            return [ev(x) for x in e[1]]
+        if k == "d":
+            return {kk: ev(x) for kk, x in e[1]}
+        ent = reg[e[1]]
+        args = [ev(x) for x in e[2]]
+        full = ([ds] if ent["takes_ds"] else []) + ([ns] if ent["takes_ns"] else []) + args
+        return _raw[e[1]](*full)
+
+    def go():
+        for name, e in prog:
+            ns[name] = ev(e)
+        return canon_real(ns["RETURN"])
+
+    return guarded(go)
+
+
 # ---- protocol ------------------------------------------------------------------------------------
 
 
